@@ -34,8 +34,9 @@ PROP_MODULES = ["WV.Props.C03"]
 TRUSTED = [
     "SecretBox / HKDF / SPAKE2 (an ideal (side, phase)-keyed AEAD interface `Crypto.Ideal` in Lean; the real "
     "primitives run in the harness and ciphertexts are mapped to the driver's toy sealing by the harness)",
-    "composition: that the composed client is an instance of `Pipe` (client_refines_pipe) is validated by the "
-    "differential runs and the whole-client oracle, not proved in Lean",
+    "composition: proved in Lean for the composed model `Client` (e2e_prefix_clients: two Clients + a storing / "
+    "duplicating / reordering / replaying server, all schedules); that the real client IS that `Client` is what the "
+    "differential runs and the whole-client oracle check",
     "Python `\\d` / int() on non-ASCII digits in phase names (outside the model; phases are produced by '%d')",
     "the mailbox server and the network are the harness World (real wormhole_mailbox_server objects + scheduler)",
     "delegate / Deferred callbacks of the application do not raise",
